@@ -133,6 +133,26 @@ theorem C04_batch_exact (w : WSpec) (hb : Wk.BerrsOk w) (as : List Wk.Act) (s : 
       · rfl
       · simp [hc]
 
+/-- … and only its members: a request that is neither an exception on entry nor rejected by
+    `preprocess` is answered out of exactly one finished `call`, recorded in `blog` with the batch it
+    was put in; its answer is its own element's result, or — batched only — the error that call
+    raised on THAT batch.  So its outcome depends on its own input and on the batch it shared, on
+    nothing else -/
+theorem C04_batch_members_only (w : WSpec) (hb : Wk.BerrsOk w) (as : List Wk.Act) (s : Wk.State)
+    (hr : Core.run (Wk.step w) Wk.init as = some s) :
+    ∀ t ∈ s.sentG, t.2.1.isExc = false → (w.pre t.2.1).isExc = false →
+      ∃ e ∈ s.blog, t ∈ e.2 ∧ ∃ t0 ∈ e.1, t.1 = t0.1 ∧ t.2.1 = t0.2.1 ∧
+        (t.2.2 = w.f t0.2.2 ∨
+         (w.bs ≠ 0 ∧ ∃ err, w.bfail (e.1.map (·.2.2)) = some err ∧ t.2.2 = err)) := by
+  intro t ht hx hp
+  rcases Wk.srcinv_reach w as s hr t (List.mem_append_left _ ht) with h1 | h1 | ⟨e, he, hte⟩
+  · rw [hx] at h1; exact absurd h1.1 (by simp)
+  · rw [hp] at h1; exact absurd h1.2.1 (by simp)
+  · have h2 := ((Wk.inv_reach w hb as s hr).1.blog e he).1
+    rw [h2] at hte
+    obtain ⟨t0, h0, q1, q2, q3⟩ := Wk.mem_results w e.1 t hte
+    exact ⟨e, he, by rw [h2]; exact hte, t0, h0, q1, q2, q3⟩
+
 /-- **original error**: the value a simple servlet puts on its output queue for a failing request
     is the very value that entered (`x`), or the one `preprocess` / `call` / the batched call
     produced — never a rebuilt one (class and args across `RemoteException`: C15) -/
